@@ -10,6 +10,7 @@ pub mod c13;
 pub mod c14;
 pub mod c07;
 pub mod c03;
+pub mod c09;
 pub mod c20;
 
 pub fn run(prop: &str, ctx: &mut Ctx) -> Option<Report> {
@@ -23,6 +24,7 @@ pub fn run(prop: &str, ctx: &mut Ctx) -> Option<Report> {
         "C14" => Some(c14::run(ctx)),
         "C07" => Some(c07::run(ctx)),
         "C03" => Some(c03::run(ctx)),
+        "C09" => Some(c09::run(ctx)),
         "C20" => Some(c20::run(ctx)),
         _ => None,
     }
